@@ -1,17 +1,22 @@
 package compiler
 
 import (
+	"fmt"
+
 	"github.com/grafana/cog/internal/ast"
 )
 
 type RemoveIntersections struct {
 	objectsToRemove map[string]ast.Object
 	arraysToFix     map[string]ast.Object
+	// aliases of lists being replaced by the list they stand for
+	expanding map[string]struct{}
 }
 
 func (r RemoveIntersections) Process(schemas []*ast.Schema) ([]*ast.Schema, error) {
 	r.objectsToRemove = make(map[string]ast.Object)
 	r.arraysToFix = make(map[string]ast.Object)
+	r.expanding = make(map[string]struct{})
 	visitor := Visitor{
 		OnSchema: r.processSchema,
 		OnObject: r.processObject,
@@ -165,6 +170,13 @@ func (r RemoveIntersections) redirectReference(visitor *Visitor, schema *ast.Sch
 
 	// the items of a list can refer to removed objects too
 	if newType.IsArray() {
+		// … the alias itself included (`Tree: Nodes`, `Nodes: [...Tree]`): such a list has no end
+		if _, found := r.expanding[ref.ReferredType]; found {
+			return ast.Type{}, fmt.Errorf("'%s' stands for a list defined in terms of itself: it can not be replaced by that list", ref.ReferredType)
+		}
+		r.expanding[ref.ReferredType] = struct{}{}
+		defer delete(r.expanding, ref.ReferredType)
+
 		return visitor.VisitType(schema, newType)
 	}
 
